@@ -6,12 +6,13 @@ from __future__ import annotations
 
 import ast
 from dataclasses import dataclass
-from typing import Dict, List, Optional, Tuple
+from fractions import Fraction
+from typing import Dict, List, Optional, Set, Tuple
 
 from ..cfg import CFG, Node
 from ..core import AnalysisError, Cls, Fn, Repo, call_name, calls_in, const_value, dotted, get_kw, last_attr, short, walk_no_nested
 from ..report import Check
-from ..terms import Poly, TermBuilder, single_atom
+from ..terms import Poly
 
 TOUR = "agilerl.hpo.tournament"
 
@@ -138,8 +139,10 @@ def run(ck: Check, repo: Repo) -> None:
     ck.trusted += ["numpy: argsort is ascending; argsort of a permutation is its inverse (ranks); argmax returns the position of a maximum"]
     ck.rule("C05.1", "the elite is the arg-max of the mean of the last eval_loop scores (ordering algebra over argsort/argmax/[-1])")
     ck.rule("C05.2", "a tournament draws tournament_size indices from [0, population) and returns the best-ranked of the drawn indices")
-    ck.rule("C05.3", "the new population has exactly population_size members on both branches (path count)")
-    ck.rule("C05.4", "every non-elite member gets a fresh index: a counter started at the maximum existing index and incremented before each use")
+    ck.rule("C05.3", "the new population has exactly population_size members on both arms of the elitism switch "
+                     "(symbolic count: members added before the loop + iterations x appends per iteration)")
+    ck.rule("C05.4", "every non-elite member gets a fresh index: in iteration k it is max_id + a*k + b with a, b >= 1 (a counter started at the maximum existing "
+                     "index and stepped before each use, or the maximum plus a loop index that starts at 1)")
     ck.rule("C05.5", "with elitism the elite is the first member of the new population")
     ck.rule("C05.6", "the parent of each member is the tournament winner of that iteration, looked up in the old population")
     cls = repo.cls(TOUR, "TournamentSelection")
@@ -251,99 +254,94 @@ def run(ck: Check, repo: Repo) -> None:
         ok = isinstance(cmp_.elt, ast.Subscript) and dotted(cmp_.elt.value) == param and dotted(cmp_.elt.slice) == dotted(gg.target) and not gg.ifs
         ck.ob("C05.2", tour, cmp_, ok, "the compared values are the ranks at the drawn indices, in draw order")
     # ---- C05.3 size / C05.5 elite first / C05.4 indices / C05.6 parents
+    # The rules below do not look at how select() spells the construction of the new population: they work on its *members* (elements of the
+    # list display(s) the list is bound to, arguments of append calls; c01.list_build), count them symbolically on each arm of the elitism switch
+    # and evaluate the index of the k-th tournament member as a polynomial in k.
     scfg = CFG(sel.node)
-    stb = TermBuilder(repo, sel, cfg=scfg, depth=0)
-    # the new population: the local list that receives the appended members (checked below to be the one returned)
-    recv = sorted({c.func.value.id for c in calls_in(sel.node) if last_attr(c) == "append" and isinstance(c.func, ast.Attribute)
-                   and isinstance(c.func.value, ast.Name)})
     srets = [n for n in scfg.live_nodes() if n.kind == "stmt" and isinstance(n.ast, ast.Return)]
     returned = {dotted(n.ast.value.elts[1]) for n in srets if isinstance(n.ast.value, ast.Tuple) and len(n.ast.value.elts) == 2}
-    newpop = next((x for x in recv if x in returned), recv[0] if len(recv) == 1 else None)
-    apps = [(c, scfg.node_of(c)) for c in calls_in(sel.node) if newpop is not None and call_name(c) == f"{newpop}.append"]
-    loops = [n for n in scfg.live_nodes() if n.kind == "for"]
-    ck.ob("C05.3", sel, sel.node, len(loops) == 1 and len(apps) == 2, "members are added in one elite branch and one tournament loop", construct="append sites in select")
-    if len(loops) == 1 and len(apps) == 2:
-        L = loops[0]
-        it = L.ast.iter
-        ok = isinstance(it, ast.Call) and call_name(it) == "range" and len(it.args) == 1
-        in_loop = [a for a in apps if any(x is a[0] for x in ast.walk(L.ast))]
-        out_loop = [a for a in apps if a not in in_loop]
-        ck.ob("C05.3", sel, it, ok and len(in_loop) == 1 and len(out_loop) == 1, "the tournament loop runs selection_size times with one append per iteration")
-        if ok and in_loop and out_loop:
-            # append in loop is unconditional within the body
-            first = scfg.node_of(L.ast.body[0])
-            ck.ob("C05.3", sel, in_loop[0][0], first is not None and scfg.postdominates(in_loop[0][1], first) and not [g for g, p, t in scfg.guards_at(in_loop[0][1])],
+    # the new population: the local list returned as the second element (else the only local that receives appended members)
+    recv = sorted({c.func.value.id for c in calls_in(sel.node) if last_attr(c) == "append" and isinstance(c.func, ast.Attribute)
+                   and isinstance(c.func.value, ast.Name)})
+    ret_names = sorted(x for x in returned if "?" not in x and "." not in x)
+    newpop = ret_names[0] if len(ret_names) == 1 else (recv[0] if len(recv) == 1 and not ret_names else None)
+    lb = c01.list_build(scfg, newpop)
+    loops_of = {id(m): _enclosing_loops(scfg, m.node) for m in lb.members}
+    tourn = [m for m in lb.members if loops_of[id(m)]]
+    first_m = [m for m in lb.members if not loops_of[id(m)]]
+    modelled = not lb.problems and not lb.not_lists and all(m.how in ("display", "append") for m in lb.members) and all(len(loops_of[id(m)]) == 1 for m in tourn)
+    ck.ob("C05.3", sel, sel.node, modelled and len(tourn) == 1 and len(first_m) == 1, "the members come from one conditional elite contribution (a branch, or an arm of the defining display) and one tournament loop",
+          detail="; ".join(lb.problems + [f"not a new list: {short(x, 50)}" for x in lb.not_lists]) or f"{len(first_m)} member(s) outside a loop, {len(tourn)} inside",
+          construct="append sites in select")
+    if modelled and len(tourn) == 1 and len(first_m) == 1:
+        tm, em = tourn[0], first_m[0]
+        L = loops_of[id(tm)][0]
+        sym = _Sym(scfg, lb, L)
+        rng = sym.rng
+        # the loop is left only through its header: no break / return inside (each would change the number of members)
+        jumps = [x for x in ast.walk(L.stmt) if isinstance(x, (ast.Break, ast.Return))]
+        ck.ob("C05.3", sel, L.ast.iter if L.kind == "for" else L.ast, rng is not None and not jumps, "the tournament loop runs a number of times that is fixed on entry (range with unit step, never left early), with one append per iteration",
+              detail="the loop is not `for .. in range(..)` with unit step" if rng is None else (f"`{short(jumps[0], 40)}` leaves the loop early" if jumps else ""))
+        if rng is not None:
+            it = L.ast.iter
+            # the append inside the loop is unconditional within the body
+            ck.ob("C05.3", sel, tm.site, sym.once_per_iteration(tm.node) and not scfg.guards_at(tm.node) and not tm.conds,
                   "the append inside the loop happens on every iteration")
-            cnt = stb.term(it.args[0], L)
-            alts = _phi_alts(stb, cnt)
             P = Poly.atom("attr:self.population_size")
-            eg = [(g, pol) for g, pol, _ in scfg.guards_at(out_loop[0][1])]
-            okg = len(eg) == 1 and dotted(eg[0][0]) == "self.elitism" and eg[0][1]
-            ck.ob("C05.5", sel, out_loop[0][0], okg, "the elite is added exactly when elitism is on")
-            want = {(P - Poly.const(1)).key(), P.key()}
-            ck.ob("C05.3", sel, it, {a.key() for a in alts} == want,
-                  "selection_size is population_size - 1 with elitism and population_size without: the total is population_size on both branches",
-                  detail=f"loop count alternatives: {[a.key() for a in alts]}")
-            # which alternative belongs to which branch
-            sz_defs = [n for n in scfg.live_nodes() if n.kind == "stmt" and isinstance(n.ast, ast.Assign) and dotted(n.ast.targets[0]) == dotted(it.args[0])]
-            for d in sz_defs:
-                gs = [(dotted(g), pol) for g, pol, _ in scfg.guards_at(d)]
-                t = stb.term(d.ast.value, d)
-                with_elite = ("self.elitism", True) in gs
-                ck.ob("C05.3", sel, d.ast, t == (P - Poly.const(1) if with_elite else P), f"selection_size on the {'elitism' if with_elite else 'no-elitism'} branch")
-            # elite first
-            ck.ob("C05.5", sel, out_loop[0][0], scfg.dominates(out_loop[0][1], L) or out_loop[0][1].lineno < L.lineno and L.id in scfg.reachable_from(out_loop[0][1]),
-                  "the elite is appended before any tournament winner (first position)")
-            ea = out_loop[0][0].args[0]
+            n_on, n_off = sym.times(em, True), sym.times(em, False)
+            ck.ob("C05.5", sel, em.site, n_on == Poly.const(1) and n_off == Poly.const(0) and not sym.switch_stores, "the elite is added exactly when elitism is on",
+                  detail=f"added {_show(n_on)} time(s) with elitism, {_show(n_off)} without")
+            trips = {arm: sym.trips(arm) for arm in (True, False)}
+            ck.ob("C05.3", sel, it, None not in trips.values() and not sym.switch_stores,
+                  "the number of iterations is determined by the elitism switch alone (population_size - 1 with elitism, population_size without)",
+                  detail="iterations: " + ", ".join(f"{_show(v)} {'with' if a else 'without'} elitism" for a, v in trips.items()))
+            # symbolic count per arm: |members added before the loop| + iterations x appends per iteration = population_size
+            for arm in (True, False):
+                tot = sym.total(arm)
+                ck.ob("C05.3", sel, it, tot == P, f"{'with' if arm else 'without'} elitism the members added before the loop plus one per iteration are exactly population_size",
+                      detail=f"{_show(sym.times(em, arm))} before the loop + {_show(trips[arm])} iterations x 1 = {_show(tot)} members, wanted {_show(P)}",
+                      construct=f"size of the new population {'with' if arm else 'without'} elitism")
+            # elite first: it is in position 0 of the display that starts the list, or appended before the loop can add anything
+            if em.how == "display":
+                okf = em.pos == 0 and em.node in scfg.defs_reaching(tm.node, newpop)
+            else:
+                okf = L.id in scfg.reachable_from(em.node) and em.node.id not in scfg.reachable_from(tm.node)
+            ck.ob("C05.5", sel, em.site, okf, "the elite is appended before any tournament winner (first position)")
+            ea, ean = _resolve(scfg, em.elt, em.node)
             ok = isinstance(ea, ast.Call) and last_attr(ea) == "clone" and isinstance(ea.func, ast.Attribute) \
-                and _from_elitism(scfg, out_loop[0][1], ea.func.value) == 0
+                and _from_elitism(scfg, ean, _resolve(scfg, ea.func.value, ean)[0]) == 0
             ck.ob("C05.5", sel, ea, ok, "the first member is a clone of the elite returned by _elitism")
             if ok:
                 idx_arg = get_kw(ea, "index", 0)
                 ck.ob("C05.5", sel, ea, idx_arg is None, "the elite's copy keeps the elite's index (carried unchanged)")
             # C05.4 fresh indices
-            ca = in_loop[0][0].args[0]
-            cn = in_loop[0][1]
-            clone_call = None
-            if isinstance(ca, ast.Name):
-                for d in scfg.defs_reaching(cn, ca.id):
-                    v = scfg.value_of_def(d, ca.id)
-                    if isinstance(v, ast.Call) and last_attr(v) == "clone":
-                        clone_call = (v, d)
-            elif isinstance(ca, ast.Call) and last_attr(ca) == "clone":
-                clone_call = (ca, cn)
-            ck.ob("C05.4", sel, ca, clone_call is not None, "tournament members are clones", construct="member clone in select loop")
-            if clone_call is not None:
-                v, dn = clone_call
+            ca = tm.elt
+            v, dn = _resolve(scfg, ca, tm.node)
+            is_clone = isinstance(v, ast.Call) and last_attr(v) == "clone" and isinstance(v.func, ast.Attribute)
+            ck.ob("C05.4", sel, ca, is_clone, "tournament members are clones", construct="member clone in select loop")
+            if is_clone:
                 ia = get_kw(v, "index", 0)
-                ok = isinstance(ia, ast.Name)
-                detail = ""
-                if ok:
-                    incs = [n for n in scfg.live_nodes() if n.kind == "stmt" and isinstance(n.ast, ast.AugAssign) and dotted(n.ast.target) == ia.id
-                            and isinstance(n.ast.op, ast.Add) and const_value(n.ast.value) == 1 and any(x is n.ast for x in ast.walk(L.ast))]
-                    ok = len(incs) == 1 and scfg.dominates(incs[0], dn)
-                    detail = f"increments in loop: {len(incs)}"
-                    # initial value = max index of the old population (from _elitism)
-                    init_defs = [d for d in scfg.defs_reaching(L, ia.id) if not any(x is d.stmt for x in ast.walk(L.ast))]
-                    oki = len(init_defs) == 1 and "self._elitism(population)" in ast.unparse(init_defs[0].ast)
-                    ck.ob("C05.4", sel, ia, oki, "the index counter starts from the value returned by _elitism")
-                ck.ob("C05.4", sel, v, ok, "the counter is incremented exactly once per iteration, before it is used as the new member's index", detail=detail)
+                # the index of the member made in iteration k (k = 0, 1, ..) as a polynomial: a counter stepped once per iteration contributes
+                # start + step * (k + 1) when the step comes before the use and start + step * k when it comes after; the variable of range(lo, ..) is lo + k
+                ip = sym.index(ia, dn) if ia is not None else None
+                B = Poly.atom("elitism:2")
+                rest = ip - B if ip is not None else None
+                ck.ob("C05.4", sel, ia if ia is not None else v, rest is not None and "elitism:2" not in rest.atoms(), "the new indices are counted from the maximum index returned by _elitism",
+                      detail=f"index in iteration k: {_show(ip)}")
+                c1, c0 = _affine(rest, "k") if rest is not None else (None, None)
+                ok = c1 is not None and c1 >= 1 and c0 >= 1
+                ck.ob("C05.4", sel, v, ok, "the member made in iteration k gets index max_id + a*k + b with a >= 1 (no two members share one) and b >= 1 (above every existing "
+                      "index): a counter stepped once per iteration before its use, or max_id plus a loop index starting at 1", detail=f"index in iteration k (k = 0, 1, ..): {_show(ip)}")
                 # C05.6 parent
-                pv = v.func.value
-                pe = None
-                if isinstance(pv, ast.Name):
-                    for d in scfg.defs_reaching(dn, pv.id):
-                        pe = scfg.value_of_def(d, pv.id)
-                        pd_ = d
-                ok = isinstance(pe, ast.Subscript) and dotted(pe.value) == "population" and isinstance(pe.slice, ast.Call) and call_name(pe.slice) == "self._tournament" \
-                    and any(x is pd_.stmt for x in ast.walk(L.ast))
+                pe, pn = _resolve(scfg, v.func.value, dn)
+                tc, tn = _resolve(scfg, pe.slice, pn) if isinstance(pe, ast.Subscript) and isinstance(pe.slice, ast.expr) else (None, None)
+                ok = isinstance(pe, ast.Subscript) and dotted(pe.value) == "population" and isinstance(tc, ast.Call) and call_name(tc) == "self._tournament" \
+                    and tn is not None and sym.in_loop(tn)
                 ck.ob("C05.6", sel, pe if pe is not None else v, ok, "the parent is population[winner of a tournament run in this iteration]")
                 if ok:
-                    a0 = pe.slice.args[0]
-                    src = [scfg.value_of_def(d, dotted(a0)) for d in scfg.defs_reaching(pd_, dotted(a0))]
-                    okr = bool(src) and all(s is not None and "self._elitism(population)" in ast.unparse(s) for s in src)
-                    # position 1 of the tuple
-                    ck.ob("C05.6", sel, a0, okr and _tuple_pos(scfg, pd_, dotted(a0)) == 1, "the tournament runs on the ranking computed by _elitism for this population")
+                    a0 = tc.args[0] if tc.args else None
+                    ck.ob("C05.6", sel, a0 if a0 is not None else tc, a0 is not None and _from_elitism(scfg, tn, _resolve(scfg, a0, tn)[0]) == 1,
+                          "the tournament runs on the ranking computed by _elitism for this population")
     # max_id is the maximum existing index
     mx = [n for n in ecfg.live_nodes() if n.kind == "stmt" and isinstance(n.ast, ast.Assign) and dotted(n.ast.targets[0]) == dotted(maxid_e)]
     ok = len(mx) == 1 and isinstance(mx[0].ast.value, ast.Call) and call_name(mx[0].ast.value) == "max"
@@ -423,10 +421,311 @@ def _index_param(fn: Fn) -> Optional[str]:
     return "index" if "index" in ps else (ps[0] if ps else None)
 
 
-def _phi_alts(tb: TermBuilder, p: Poly) -> List[Poly]:
-    from ..terms import expand_phi
+def _show(p: Optional[Poly]) -> str:
+    """a polynomial for a diagnosis: `population_size - 1`, `max_id + k + 1`; what could not be interpreted is shown as ?(text)."""
+    if p is None:
+        return "?"
+    parts = []
+    for m in sorted(p.t, key=lambda m: (m == (), m)):
+        c = p.t[m]
+        mon = "*".join((f"?({k[5:]})" if k.startswith("expr:") else k.replace("attr:self.", "").replace("elitism:2", "max_id")) + (f"^{e}" if e != 1 else "") for k, e in m)
+        txt = (mon if abs(c) == 1 else f"{abs(c)}*{mon}") if mon else str(abs(c))
+        parts.append(("- " if c < 0 else "+ ") + txt)
+    out = " ".join(parts) if parts else "0"
+    return out[2:] if out.startswith("+ ") else out
 
-    return expand_phi(tb, p)
+
+def _affine(p: Poly, var: str) -> Tuple[Optional[Fraction], Optional[Fraction]]:
+    """(a, b) when p = a * var + b with constant a, b; (None, None) otherwise."""
+    a, b = Fraction(0), Fraction(0)
+    for m, c in p.t.items():
+        if m == ():
+            b = c
+        elif m == ((var, 1),):
+            a = c
+        else:
+            return None, None
+    return a, b
+
+
+def _resolve(cfg: CFG, e: ast.AST, at: Optional[Node], limit: int = 6) -> Tuple[ast.AST, Optional[Node]]:
+    """Look through single-definition temporaries: the expression a local stands for, and the node that evaluates it."""
+    while isinstance(e, ast.Name) and at is not None and limit > 0:
+        ds = cfg.defs_reaching(at, e.id)
+        if len(ds) != 1 or ds[0].kind != "stmt" or not isinstance(ds[0].ast, (ast.Assign, ast.AnnAssign)):
+            break
+        v = cfg.value_of_def(ds[0], e.id)
+        if v is None or getattr(v, "_unpack_len", None) is not None:
+            break
+        e, at, limit = v, ds[0], limit - 1
+    return e, at
+
+
+def _enclosing_loops(cfg: CFG, n: Node) -> List[Node]:
+    """Headers of the loops whose body contains node n, outermost first."""
+    out = []
+    for h in cfg.live_nodes():
+        if (h.kind == "for" or (h.kind == "test" and isinstance(h.stmt, ast.While))) and h is not n and n.stmt is not None \
+                and any(x is n.stmt for b in h.stmt.body for x in ast.walk(b)):
+            out.append(h)
+    out.sort(key=lambda h: sum(1 for _ in ast.walk(h.stmt)), reverse=True)
+    return out
+
+
+class _Sym:
+    """Integer expressions of select() as polynomials: (a) evaluated on one arm of the elitism switch — the control-flow graph is cut at every test
+    of the switch, so a definition reaches a use only along paths of that arm — and (b) evaluated in iteration k of the tournament loop.
+    What cannot be interpreted becomes an opaque atom (and then equals nothing it is compared with)."""
+
+    def __init__(self, cfg: CFG, lb, loop: Node):
+        self.cfg, self.lb, self.L = cfg, lb, loop
+        self._in = {id(x) for b in loop.stmt.body for x in ast.walk(b)}
+        self._rd: Dict[bool, Dict[int, Dict[str, Set[int]]]] = {}
+        self.switch_stores = [n for n in cfg.live_nodes() if any(k in ("self.elitism", "self") for k, _ in cfg.defs_at(n)) and n.kind != "entry"]
+        # range(n) / range(lo, hi) / range(lo, hi, 1) of a for loop with a plain loop variable
+        self.rng: Optional[Tuple[Optional[ast.AST], ast.AST]] = None
+        it = loop.ast.iter if loop.kind == "for" else None
+        if isinstance(it, ast.Call) and call_name(it) == "range" and not it.keywords and 1 <= len(it.args) <= 3 and isinstance(loop.ast.target, ast.Name) \
+                and not any(isinstance(a, ast.Starred) for a in it.args) and (len(it.args) < 3 or const_value(it.args[2]) == 1) and not loop.ast.orelse:
+            self.rng = (None, it.args[0]) if len(it.args) == 1 else (it.args[0], it.args[1])
+
+    def in_loop(self, n: Node) -> bool:
+        return n is not self.L and n.stmt is not None and id(n.stmt) in self._in
+
+    def once_per_iteration(self, n: Node) -> bool:
+        """n runs exactly once in every iteration: it is on every path through the body and under no test inside the loop."""
+        first = min((x for x in self.cfg.live_nodes() if x.stmt is self.L.stmt.body[0]), key=lambda x: x.id, default=None)  # the node the body starts with
+        return self.in_loop(n) and first is not None and self.cfg.postdominates(n, first) and not [t for _, _, t in self.cfg.guards_at(n) if self.in_loop(t)] \
+            and _enclosing_loops(self.cfg, n) == [self.L]
+
+    # ---- the elitism switch
+    def is_switch(self, test: ast.AST, at: Optional[Node]) -> Optional[bool]:
+        """test is the elitism switch (looked up through temporaries): the outcome of `test` that means elitism is on; None for any other test."""
+        pol = True
+        while isinstance(test, ast.UnaryOp) and isinstance(test.op, ast.Not):
+            test, pol = test.operand, not pol
+        test, _ = _resolve(self.cfg, test, at)
+        while isinstance(test, ast.UnaryOp) and isinstance(test.op, ast.Not):
+            test, pol = test.operand, not pol
+        return pol if dotted(test) == "self.elitism" else None
+
+    def _succ(self, n: Node, arm: bool) -> List[Node]:
+        p = self.is_switch(n.ast, n) if n.kind == "test" and isinstance(n.stmt, ast.If) and n.true_succ is not None else None
+        if p is None:
+            return n.succ
+        if arm == p:
+            return [n.true_succ]
+        return [n.false_succ] if n.false_succ is not None else [x for x in n.succ if x is not n.true_succ and x.id not in n.exc_succ]
+
+    def reaching(self, arm: bool) -> Dict[int, Dict[str, Set[int]]]:
+        """Reaching definitions (node id -> name -> ids of defining nodes) along the paths of one arm; nodes the arm does not reach have no entry."""
+        if arm not in self._rd:
+            IN: Dict[int, Dict[str, Set[int]]] = {self.cfg.entry.id: {}}
+            work = [self.cfg.entry]
+            while work:
+                n = work.pop()
+                out = {k: set(v) for k, v in IN[n.id].items()}
+                for k, strong in self.cfg.defs_at(n):
+                    if strong:
+                        out[k] = {n.id}
+                    else:
+                        out.setdefault(k, set()).add(n.id)
+                for x in self._succ(n, arm):
+                    cur = IN.get(x.id)
+                    if cur is None:
+                        IN[x.id] = {k: set(v) for k, v in out.items()}
+                        work.append(x)
+                    else:
+                        grew = False
+                        for k, v in out.items():
+                            if not v <= cur.get(k, set()):
+                                cur.setdefault(k, set()).update(v)
+                                grew = True
+                        if grew:
+                            work.append(x)
+            self._rd[arm] = IN
+        return self._rd[arm]
+
+    # ---- (a) counting on one arm
+    def times(self, m, arm: bool) -> Optional[Poly]:
+        """How often member m is added on the arm (None: it depends on something else than the switch)."""
+        if m.node.id not in self.reaching(arm):
+            return Poly.const(0)
+        for t, pol in m.conds:
+            p = self.is_switch(t, m.node)
+            if p is None:
+                return None
+            if (p == pol) != arm:
+                return Poly.const(0)
+        if [g for g, _, t in self.cfg.guards_at(m.node) if self.is_switch(g, t) is None]:
+            return None
+        if self.in_loop(m.node):
+            return self.trips(arm)
+        return Poly.const(1) if not _enclosing_loops(self.cfg, m.node) else None
+
+    def trips(self, arm: bool) -> Optional[Poly]:
+        if self.rng is None or self.L.id not in self.reaching(arm):
+            return None
+        lo = self.count(self.rng[0], self.L, arm) if self.rng[0] is not None else Poly.const(0)
+        hi = self.count(self.rng[1], self.L, arm)
+        return hi - lo if lo is not None and hi is not None else None
+
+    def total(self, arm: bool) -> Optional[Poly]:
+        tot = Poly.const(0)
+        for m in self.lb.members:
+            c = self.times(m, arm)
+            if c is None:
+                return None
+            tot = tot + c
+        return tot
+
+    def length(self, at: Node, arm: bool) -> Optional[Poly]:
+        """len(<the list>) at node `at` on the arm: the members added by the definitions / appends that reach it."""
+        rd = self.reaching(arm).get(at.id, {}).get(self.lb.name, set())
+        if at is self.L:
+            rd = {i for i in rd if not self.in_loop(self.cfg.nodes[i])}
+        if not any(d.id in rd for d in self.lb.defs):
+            return None
+        tot = Poly.const(0)
+        for m in self.lb.members:
+            if m.node.id in rd:
+                c = self.times(m, arm) if not _enclosing_loops(self.cfg, m.node) else None
+                if c is None:
+                    return None
+                tot = tot + c
+        return tot
+
+    def count(self, e: ast.AST, at: Node, arm: bool, depth: int = 0) -> Optional[Poly]:
+        """The value of integer expression e at node `at` on the arm (at the loop header: on entry to the loop)."""
+        if depth > 12:
+            return None
+        if isinstance(e, ast.Constant) and isinstance(e.value, int) and not isinstance(e.value, bool):
+            return Poly.const(e.value)
+        if isinstance(e, ast.Name):
+            ids = self.reaching(arm).get(at.id, {}).get(e.id, set())
+            ds = [self.cfg.nodes[i] for i in sorted(ids) if not (at is self.L and self.in_loop(self.cfg.nodes[i]))]
+            vals: List[Optional[Poly]] = []
+            for d in ds:
+                v = self.cfg.value_of_def(d, e.id) if d.kind == "stmt" else None
+                if v is not None and getattr(v, "_unpack_len", None) is None:
+                    vals.append(self.count(v, d, arm, depth + 1))
+                elif d.kind == "stmt" and isinstance(d.ast, ast.AugAssign) and isinstance(d.ast.target, ast.Name) and isinstance(d.ast.op, (ast.Add, ast.Sub)) and not self.in_loop(d):
+                    prev, rhs = self.count(e, d, arm, depth + 1), self.count(d.ast.value, d, arm, depth + 1)
+                    vals.append(None if prev is None or rhs is None else (prev + rhs if isinstance(d.ast.op, ast.Add) else prev - rhs))
+                else:
+                    vals.append(Poly.atom(f"expr:{e.id}@{d.lineno}"))
+            if not vals or any(v is None or v != vals[0] for v in vals):
+                return None
+            return vals[0]
+        if isinstance(e, ast.Attribute) and dotted(e).startswith("self.") and dotted(e).count(".") == 1 \
+                and not [n for n in self.cfg.live_nodes() if n.kind != "entry" and any(k in (dotted(e), "self") for k, _ in self.cfg.defs_at(n))]:
+            return Poly.atom("attr:" + dotted(e))  # a configuration attribute that select() does not assign
+        if isinstance(e, ast.UnaryOp) and isinstance(e.op, (ast.USub, ast.UAdd)):
+            o = self.count(e.operand, at, arm, depth + 1)
+            return None if o is None else (-o if isinstance(e.op, ast.USub) else o)
+        if isinstance(e, ast.BinOp) and isinstance(e.op, (ast.Add, ast.Sub, ast.Mult)):
+            l, r = self.count(e.left, at, arm, depth + 1), self.count(e.right, at, arm, depth + 1)
+            if l is None or r is None:
+                return None
+            return l + r if isinstance(e.op, ast.Add) else (l - r if isinstance(e.op, ast.Sub) else l * r)
+        if isinstance(e, ast.IfExp):
+            p = self.is_switch(e.test, at)
+            if p is None:
+                a, b = self.count(e.body, at, arm, depth + 1), self.count(e.orelse, at, arm, depth + 1)
+                return a if a is not None and a == b else None
+            return self.count(e.body if p == arm else e.orelse, at, arm, depth + 1)
+        if isinstance(e, ast.Call) and call_name(e) == "int" and len(e.args) == 1 and not e.keywords:
+            return self.count(e.args[0], at, arm, depth + 1)
+        if isinstance(e, ast.Call) and call_name(e) == "len" and len(e.args) == 1 and isinstance(e.args[0], ast.Name) and e.args[0].id == self.lb.name:
+            return self.length(at, arm)
+        return Poly.atom("expr:" + " ".join(ast.unparse(e).split()))
+
+    # ---- (b) the value in iteration k of the loop (k = 0, 1, ..)
+    def _before_loop(self, name: str, outs: List[Node], depth: int) -> Poly:
+        if outs and _elitism_pos(outs, name) == 2:
+            return Poly.atom("elitism:2")  # the maximum existing index, third element of what _elitism returns
+        vals = []
+        for d in outs:
+            v = self.cfg.value_of_def(d, name) if d.kind == "stmt" else None
+            if v is None or getattr(v, "_unpack_len", None) is not None:
+                return Poly.atom(f"expr:{name}@{d.lineno}")
+            vals.append(self.index(v, d, depth + 1))
+        if not vals or any(v != vals[0] for v in vals):
+            return Poly.atom(f"expr:{name}")
+        return vals[0]
+
+    def _step(self, u: Node, name: str) -> Optional[Poly]:
+        """constant c when node u is `name += c` / `name = name + c` / `name = c + name`."""
+        s = u.ast
+        if u.kind != "stmt":
+            return None
+        if isinstance(s, ast.AugAssign) and isinstance(s.target, ast.Name) and s.target.id == name and isinstance(s.op, (ast.Add, ast.Sub)) and isinstance(const_value(s.value), int):
+            return Poly.const(const_value(s.value) if isinstance(s.op, ast.Add) else -const_value(s.value))
+        if isinstance(s, ast.Assign) and len(s.targets) == 1 and isinstance(s.targets[0], ast.Name) and s.targets[0].id == name and isinstance(s.value, ast.BinOp) \
+                and isinstance(s.value.op, (ast.Add, ast.Sub)):
+            l, r = s.value.left, s.value.right
+            if isinstance(l, ast.Name) and l.id == name and isinstance(const_value(r), int):
+                return Poly.const(const_value(r) if isinstance(s.value.op, ast.Add) else -const_value(r))
+            if isinstance(r, ast.Name) and r.id == name and isinstance(const_value(l), int) and isinstance(s.value.op, ast.Add):
+                return Poly.const(const_value(l))
+        return None
+
+    def index(self, e: ast.AST, at: Node, depth: int = 0) -> Poly:
+        opaque = Poly.atom("expr:" + " ".join(ast.unparse(e).split()))
+        if depth > 12:
+            return opaque
+        if isinstance(e, ast.Constant) and isinstance(e.value, int) and not isinstance(e.value, bool):
+            return Poly.const(e.value)
+        if isinstance(e, ast.Name):
+            ds = self.cfg.defs_reaching(at, e.id)
+            if self.L in ds:
+                # the loop variable of range(lo, ..): lo + k
+                if ds == [self.L] and self.rng is not None and self.L.ast.target.id == e.id and self.in_loop(at):
+                    lo = self.index(self.rng[0], self.L, depth + 1) if self.rng[0] is not None else Poly.const(0)
+                    return lo + Poly.atom("k")
+                return opaque
+            ins = [d for d in ds if self.in_loop(d)] if at is not self.L else []
+            outs = [d for d in ds if not self.in_loop(d)]
+            if not ins:
+                return self._before_loop(e.id, outs, depth)
+            if len(ins) == 1:
+                u = ins[0]
+                c = self._step(u, e.id)
+                if c is None:
+                    v = self.cfg.value_of_def(u, e.id)
+                    if not outs and v is not None and getattr(v, "_unpack_len", None) is None:
+                        return self.index(v, u, depth + 1)  # a temporary of this iteration
+                    return opaque
+                if self.once_per_iteration(u):
+                    start = self._before_loop(e.id, [d for d in self.cfg.defs_reaching(self.L, e.id) if not self.in_loop(d) and d is not self.L], depth)
+                    # only the step reaches the use: it ran earlier in this iteration (k + 1 steps so far); the value from before the loop reaches it too: k steps so far
+                    return start + c * (Poly.atom("k") + Poly.const(1)) if not outs else start + c * Poly.atom("k")
+            return opaque
+        if isinstance(e, ast.UnaryOp) and isinstance(e.op, (ast.USub, ast.UAdd)):
+            o = self.index(e.operand, at, depth + 1)
+            return -o if isinstance(e.op, ast.USub) else o
+        if isinstance(e, ast.BinOp) and isinstance(e.op, (ast.Add, ast.Sub, ast.Mult)):
+            l, r = self.index(e.left, at, depth + 1), self.index(e.right, at, depth + 1)
+            return l + r if isinstance(e.op, ast.Add) else (l - r if isinstance(e.op, ast.Sub) else l * r)
+        if isinstance(e, ast.Call) and call_name(e) == "int" and len(e.args) == 1 and not e.keywords:
+            return self.index(e.args[0], at, depth + 1)
+        return opaque
+
+
+def _elitism_pos(defs: List[Node], name: str) -> Optional[int]:
+    """Position in the tuple returned by self._elitism(population) that the definitions `defs` bind to `name` (None when one of them is anything else)."""
+    pos = set()
+    for d in defs:
+        s = d.ast
+        if not (d.kind == "stmt" and isinstance(s, ast.Assign) and len(s.targets) == 1 and isinstance(s.targets[0], ast.Tuple)
+                and isinstance(s.value, ast.Call) and call_name(s.value) == "self._elitism"
+                and [dotted(a) for a in s.value.args] == ["population"] and not s.value.keywords):
+            return None
+        hit = [i for i, t in enumerate(s.targets[0].elts) if dotted(t) == name]
+        if len(hit) != 1:
+            return None
+        pos.add(hit[0])
+    return pos.pop() if len(pos) == 1 else None
 
 
 def _from_elitism(cfg: CFG, at: Node, e: ast.AST) -> Optional[int]:
@@ -434,31 +733,15 @@ def _from_elitism(cfg: CFG, at: Node, e: ast.AST) -> Optional[int]:
     (None when e is not a local bound only by unpacking that call)."""
     if not isinstance(e, ast.Name) or at is None:
         return None
-    pos = set()
-    for d in cfg.defs_reaching(at, e.id):
-        s = d.ast
-        if not (d.kind == "stmt" and isinstance(s, ast.Assign) and len(s.targets) == 1 and isinstance(s.targets[0], ast.Tuple)
-                and isinstance(s.value, ast.Call) and call_name(s.value) == "self._elitism"
-                and [dotted(a) for a in s.value.args] == ["population"] and not s.value.keywords):
-            return None
-        hit = [i for i, t in enumerate(s.targets[0].elts) if dotted(t) == e.id]
-        if len(hit) != 1:
-            return None
-        pos.add(hit[0])
-    return pos.pop() if len(pos) == 1 else None
-
-
-def _tuple_pos(cfg: CFG, at: Node, name: str) -> Optional[int]:
-    for d in cfg.defs_reaching(at, name):
-        s = d.ast
-        if isinstance(s, ast.Assign) and isinstance(s.targets[0], ast.Tuple):
-            for i, t in enumerate(s.targets[0].elts):
-                if dotted(t) == name:
-                    return i
-    return None
+    return _elitism_pos(cfg.defs_reaching(at, e.id), e.id)
 
 
 _TF = "agilerl/hpo/tournament.py"
+# select() as written today: the bookkeeping before the loop, and the tournament loop
+_HEAD = ("        new_population = []\n        if self.elitism:  # keep top agent in population\n            new_population.append(elite.clone(wrap=False))\n"
+         "            selection_size = self.population_size - 1\n        else:\n            selection_size = self.population_size\n")
+_LOOP = ("        for idx in range(selection_size):\n            max_id += 1\n            actor_parent = population[self._tournament(rank)]\n"
+         "            new_individual = actor_parent.clone(max_id, wrap=False)\n            new_population.append(new_individual)\n")
 VARIANTS = [
     ("elite-worst", _TF, "model = population[int(np.argsort(rank)[-1])]", "model = population[int(np.argsort(rank)[0])]", "fire", "C05.1"),
     ("wrapper-clone-drops-index", "agilerl/wrappers/agent.py", "agent_clone = self.agent.clone(index, wrap)", "agent_clone = self.agent.clone(wrap=wrap)", "fire", "C05.4"),
@@ -491,4 +774,61 @@ VARIANTS = [
     ("parent-from-new-pop", _TF, "actor_parent = population[self._tournament(rank)]", "actor_parent = population[self._tournament(rank) % len(population)]", "fire", "C05.6"),
     ("tournament-once", _TF, "        for idx in range(selection_size):\n            max_id += 1\n            actor_parent = population[self._tournament(rank)]\n",
      "        winner = self._tournament(rank)\n        for idx in range(selection_size):\n            max_id += 1\n            actor_parent = population[winner]\n", "fire", "C05.6"),
+    # ---- one obligation, many spellings: the same construction of the new population written differently (silent) and its broken twins (fire)
+    ("select-conditional-display-and-loop-index-ok", _TF, _HEAD + "\n        # select parents of next gen using tournament selection\n" + _LOOP,
+     "        new_population = [elite.clone(wrap=False)] if self.elitism else []\n        selection_size = self.population_size - len(new_population)\n"
+     "        for offset in range(1, selection_size + 1):\n            winner = self._tournament(rank)\n            child = population[winner].clone(max_id + offset, wrap=False)\n"
+     "            new_population.append(child)\n", "silent", None),
+    ("elite-in-conditional-display-ok", _TF, _HEAD, "        new_population = [elite.clone(wrap=False)] if self.elitism else []\n        selection_size = self.population_size - len(new_population)\n", "silent", None),
+    ("elite-in-conditional-display-negated-ok", _TF, _HEAD, "        new_population = [] if not self.elitism else [elite.clone(wrap=False)]\n        selection_size = self.population_size - len(new_population)\n", "silent", None),
+    ("elite-display-per-branch-ok", _TF, _HEAD, "        if self.elitism:\n            new_population = [elite.clone(wrap=False)]\n        else:\n            new_population = list()\n"
+     "        selection_size = self.population_size - len(new_population)\n", "silent", None),
+    ("size-len-after-append-ok", _TF, _HEAD, "        new_population = []\n        if self.elitism:\n            new_population.append(elite.clone(wrap=False))\n"
+     "        selection_size = self.population_size - len(new_population)\n", "silent", None),
+    ("size-decrement-ok", _TF, _HEAD, "        new_population = []\n        selection_size = self.population_size\n        if self.elitism:\n            new_population.append(elite.clone(wrap=False))\n"
+     "            selection_size -= 1\n", "silent", None),
+    ("size-conditional-expression-ok", _TF, _HEAD, "        new_population = []\n        if self.elitism:\n            new_population.append(elite.clone(wrap=False))\n"
+     "        selection_size = self.population_size - (1 if self.elitism else 0)\n", "silent", None),
+    ("elite-through-temporaries-ok", _TF, "            new_population.append(elite.clone(wrap=False))\n", "            best = elite\n            kept = best.clone(wrap=False)\n            new_population.append(kept)\n", "silent", None),
+    ("switch-through-temporary-ok", _TF, "        if self.elitism:  # keep top agent in population\n", "        keep_best = self.elitism\n        if keep_best:\n", "silent", None),
+    ("index-base-plus-loop-index-from-one-ok", _TF, _LOOP, "        for idx in range(1, selection_size + 1):\n            actor_parent = population[self._tournament(rank)]\n"
+     "            new_individual = actor_parent.clone(max_id + idx, wrap=False)\n            new_population.append(new_individual)\n", "silent", None),
+    ("index-base-plus-loop-index-plus-one-ok", _TF, _LOOP, "        for idx in range(selection_size):\n            actor_parent = population[self._tournament(rank)]\n"
+     "            new_individual = actor_parent.clone(idx + 1 + max_id, wrap=False)\n            new_population.append(new_individual)\n", "silent", None),
+    ("index-is-loop-variable-above-max-ok", _TF, _LOOP, "        for new_id in range(max_id + 1, max_id + 1 + selection_size):\n            actor_parent = population[self._tournament(rank)]\n"
+     "            new_individual = actor_parent.clone(new_id, wrap=False)\n            new_population.append(new_individual)\n", "silent", None),
+    ("index-counter-plain-assignment-ok", _TF, "            max_id += 1\n", "            max_id = max_id + 1\n", "silent", None),
+    ("index-own-counter-ok", _TF, _LOOP, "        next_id = max_id\n        for idx in range(selection_size):\n            next_id = 1 + next_id\n            actor_parent = population[self._tournament(rank)]\n"
+     "            new_individual = actor_parent.clone(index=next_id, wrap=False)\n            new_population.append(new_individual)\n", "silent", None),
+    ("winner-through-temporary-ok", _TF, "            actor_parent = population[self._tournament(rank)]\n", "            winner = self._tournament(rank)\n            actor_parent = population[winner]\n", "silent", None),
+    ("member-clone-inline-ok", _TF, "            new_individual = actor_parent.clone(max_id, wrap=False)\n            new_population.append(new_individual)\n",
+     "            new_population.append(actor_parent.clone(max_id, wrap=False))\n", "silent", None),
+    ("max-id-generator-ok", _TF, "max_id = max([ind.index for ind in population])", "max_id = max(ind.index for ind in population)", "silent", None),
+    ("elite-position-temporary-ok", _TF, "        model = population[int(np.argsort(rank)[-1])]\n        elite = model.clone()\n",
+     "        best_position = int(np.argsort(rank)[-1])\n        elite = population[best_position].clone()\n", "silent", None),
+    ("index-base-plus-loop-index-from-zero", _TF, _LOOP, "        for idx in range(selection_size):\n            actor_parent = population[self._tournament(rank)]\n"
+     "            new_individual = actor_parent.clone(max_id + idx, wrap=False)\n            new_population.append(new_individual)\n", "fire", "C05.4"),
+    ("index-loop-from-one-count-short", _TF, _LOOP, "        for idx in range(1, selection_size):\n            actor_parent = population[self._tournament(rank)]\n"
+     "            new_individual = actor_parent.clone(max_id + idx, wrap=False)\n            new_population.append(new_individual)\n", "fire", "C05.3"),
+    ("index-same-for-all", _TF, "            max_id += 1\n            actor_parent = population[self._tournament(rank)]\n            new_individual = actor_parent.clone(max_id, wrap=False)\n",
+     "            actor_parent = population[self._tournament(rank)]\n            new_individual = actor_parent.clone(max_id + 1, wrap=False)\n", "fire", "C05.4"),
+    ("index-counter-stepped-in-branch", _TF, "            max_id += 1\n", "            if idx % 2 == 0:\n                max_id += 1\n", "fire", "C05.4"),
+    ("index-counter-from-len-population", _TF, _LOOP, "        next_id = len(population)\n        for idx in range(selection_size):\n            next_id += 1\n            actor_parent = population[self._tournament(rank)]\n"
+     "            new_individual = actor_parent.clone(next_id, wrap=False)\n            new_population.append(new_individual)\n", "fire", "C05.4"),
+    ("index-counts-down", _TF, "            max_id += 1\n", "            max_id -= 1\n", "fire", "C05.4"),
+    ("size-from-len-population", _TF, _HEAD, "        new_population = [elite.clone(wrap=False)] if self.elitism else []\n        selection_size = len(population) - len(new_population)\n", "fire", "C05.3"),
+    ("size-display-not-subtracted", _TF, _HEAD, "        new_population = [elite.clone(wrap=False)] if self.elitism else []\n        selection_size = self.population_size\n", "fire", "C05.3"),
+    ("size-decrement-on-wrong-arm", _TF, _HEAD, "        new_population = []\n        selection_size = self.population_size\n        if self.elitism:\n            new_population.append(elite.clone(wrap=False))\n"
+     "        else:\n            selection_size -= 1\n", "fire", "C05.3"),
+    ("size-len-before-append", _TF, _HEAD, "        new_population = []\n        selection_size = self.population_size - len(new_population)\n        if self.elitism:\n            new_population.append(elite.clone(wrap=False))\n",
+     "fire", "C05.3"),
+    ("loop-left-early", _TF, "            new_population.append(new_individual)\n", "            new_population.append(new_individual)\n            if len(new_population) >= len(population):\n                break\n", "fire", "C05.3"),
+    ("elite-display-on-wrong-arm", _TF, _HEAD, "        new_population = [] if self.elitism else [elite.clone(wrap=False)]\n        selection_size = self.population_size - len(new_population)\n", "fire", "C05.5"),
+    ("elite-display-second", _TF, _HEAD, "        new_population = [population[0].clone(wrap=False), elite.clone(wrap=False)] if self.elitism else []\n        selection_size = self.population_size - len(new_population)\n", "fire", "C05"),
+    ("elite-appended-after-loop", _TF, _HEAD + "\n        # select parents of next gen using tournament selection\n" + _LOOP,
+     "        new_population = []\n        selection_size = self.population_size - (1 if self.elitism else 0)\n" + _LOOP + "        if self.elitism:\n            new_population.append(elite.clone(wrap=False))\n", "fire", "C05.5"),
+    ("elite-copy-gets-new-index", _TF, _HEAD, "        new_population = [elite.clone(max_id + 1, wrap=False)] if self.elitism else []\n        selection_size = self.population_size - len(new_population)\n", "fire", "C05.5"),
+    ("elite-display-not-the-elite", _TF, _HEAD, "        new_population = [population[0].clone(wrap=False)] if self.elitism else []\n        selection_size = self.population_size - len(new_population)\n", "fire", "C05.5"),
+    ("old-list-extended", _TF, "        new_population = []\n", "        new_population = population\n", "fire", "C05.3"),
+    ("winner-rank-not-from-elitism", _TF, "            actor_parent = population[self._tournament(rank)]\n", "            winner = self._tournament(np.arange(len(population)))\n            actor_parent = population[winner]\n", "fire", "C05.6"),
 ]
